@@ -450,7 +450,8 @@ def check_main(prop, tier, replay=None):
             new_sigs.append(sig)
 
     # 3. minimise + verify + report new violations (one representative per signature family)
-    os.makedirs(os.path.join(VERIF, "replays"), exist_ok=True)
+    REPLAYS = os.environ.get("VERIF_REPLAY_DIR", os.path.join(VERIF, "replays"))
+    os.makedirs(REPLAYS, exist_ok=True)
     reported = []
     fam_of = getattr(mod, "family", lambda sig: sig)
     families = {}
@@ -463,8 +464,8 @@ def check_main(prop, tier, replay=None):
         v = cands[0]
         sig = v["sig"]
         sig8 = hashlib.sha256(sig.encode()).hexdigest()[:8]
-        tmp_in = os.path.join(VERIF, "replays", ".min-%s-%s.in.json" % (prop, sig8))
-        tmp_out = os.path.join(VERIF, "replays", ".min-%s-%s.out.json" % (prop, sig8))
+        tmp_in = os.path.join(REPLAYS, ".min-%s-%s.in.json" % (prop, sig8))
+        tmp_out = os.path.join(REPLAYS, ".min-%s-%s.out.json" % (prop, sig8))
         with open(tmp_in, "w") as f:
             json.dump({"property": prop, "spec": v["spec"], "sig": sig, "trace": v["trace"],
                        "stalls": v["stalls"]}, f)
@@ -484,7 +485,7 @@ def check_main(prop, tier, replay=None):
         if res is None:
             res = {"spec": v["spec"], "trace": v["trace"], "stalls": v["stalls"], "sha": v["sha"],
                    "msg": v["msg"], "info": {"minimised": False}}
-        path = os.path.join(VERIF, "replays", "%s-%s-%d.json" % (prop, sig8, v["idx"]))
+        path = os.path.join(REPLAYS, "%s-%s-%d.json" % (prop, sig8, v["idx"]))
         with open(path, "w") as f:
             json.dump({"property": prop, "spec": res["spec"], "trace": res["trace"], "stalls": res["stalls"],
                        "expect": {"sig": res["info"].get("sig", sig), "sha": res["sha"]}, "message": res["msg"],
@@ -553,7 +554,8 @@ def _merge(a, b):
 
 
 def write_evidence(mod, prop, tier, vseed, agg, wall_s, n_new, known_hits, known_reported, jobs):
-    os.makedirs(os.path.join(VERIF, "evidence"), exist_ok=True)
+    EVD = os.environ.get("VERIF_EVIDENCE_DIR", os.path.join(VERIF, "evidence"))
+    os.makedirs(EVD, exist_ok=True)
     runs_per_hour = int(agg["runs"] / max(agg["wall"], 1e-6) * 3600)
     cov = {
         "evaluations": agg["runs"],
@@ -600,5 +602,5 @@ def write_evidence(mod, prop, tier, vseed, agg, wall_s, n_new, known_hits, known
         ],
         "wall_s": round(wall_s, 2), "violations": n_new,
     }
-    with open(os.path.join(VERIF, "evidence", "%s.json" % prop), "w") as f:
+    with open(os.path.join(EVD, "%s.json" % prop), "w") as f:
         json.dump(ev, f, indent=1, sort_keys=True)
